@@ -395,8 +395,15 @@ func TestC08(t *testing.T) {
 		}
 		// tails: generated records, or garbage
 		in := c08Input{Client: first, Keys: []*hello.Key{key}}
-		if rapid.IntRange(0, 5).Draw(t, "nokeys") == 0 {
+		switch rapid.IntRange(0, 5).Draw(t, "nokeys") {
+		case 0:
 			in.Keys = nil
+		case 1, 2:
+			// several keys (handed to NewConn in more than one WithKeys option)
+			in.Keys = append(in.Keys, drawKey(t, "k_more", rapid.IntRange(0, 255).Draw(t, "k_more_id"), key.PublicName))
+			if rapid.Bool().Draw(t, "k_first") {
+				in.Keys[0], in.Keys[1] = in.Keys[1], in.Keys[0]
+			}
 		}
 		tail := func(label string) []byte {
 			var out []byte
